@@ -44,7 +44,8 @@ def column_index_to_label(column):
     return result.upper()
 
 
-LABEL_EXTRACT_REGEXP = re.compile(r'^([$])?([A-Za-z]+)([$])?([0-9]+)\Z')
+# rows count from 1 and are written without leading zeros: A0 and A01 are not cells
+LABEL_EXTRACT_REGEXP = re.compile(r'^([$])?([A-Za-z]+)([$])?([1-9][0-9]*)\Z')
 
 ParsedLabel = namedtuple('ParsedLabel', ['index', 'label', 'is_absolute'])
 
